@@ -40,23 +40,24 @@ PvAllowed(i, v) ==
   \/ /\ decision[i] = None
      /\ IF lockedVal[i] # None THEN v = lockedVal[i]
         ELSE (v = Nil \/ (v \in Values /\ (prop = "any" \/ prop = v)))
-PrevotePhase ==
+\* f: what every correct validator prevotes in this round (None = it does not take part)
+PrevotePhaseF(f) ==
   /\ phase = "prevote"
-  /\ \E f \in [Corr -> Values \cup {Nil, None}] :
-        /\ \A i \in Corr : PvAllowed(i, f[i])
-        /\ LET win == {v \in Values \cup {Nil} : Q(Cardinality({i \in Corr : f[i] = v}))} IN
-             polka' = [polka EXCEPT ![gr] = IF win = {} THEN None ELSE CHOOSE v \in win : TRUE]
+  /\ \A i \in Corr : PvAllowed(i, f[i])
+  /\ LET win == {v \in Values \cup {Nil} : Q(Cardinality({i \in Corr : f[i] = v}))} IN
+       polka' = [polka EXCEPT ![gr] = IF win = {} THEN None ELSE CHOOSE v \in win : TRUE]
   /\ phase' = "precommit"
   /\ UNCHANGED <<gr, lockedVal, lockedRound, walVal, walRound, decision, pcq, prop, crashes>>
+PrevotePhase == \E f \in [Corr -> Values \cup {Nil, None}] : PrevotePhaseF(f)
 PcAllowed(i, g) ==
   \/ g = "abstain"
   \/ decision[i] = None /\ g = "timeout"
   \/ decision[i] = None /\ g = "lock" /\ polka[gr] \in Values
   \/ decision[i] = None /\ g = "nilpolka" /\ polka[gr] = Nil
-PrecommitPhase ==
+\* g: how every correct validator leaves the prevote step of this round
+PrecommitPhaseG(g) ==
   /\ phase = "precommit"
-  /\ \E g \in [Corr -> {"abstain","timeout","lock","nilpolka"}] :
-        /\ \A i \in Corr : PcAllowed(i, g[i])
+  /\    /\ \A i \in Corr : PcAllowed(i, g[i])
         /\ lockedVal' = [i \in Corr |-> IF g[i] = "lock" THEN polka[gr] ELSE IF g[i] = "nilpolka" THEN None ELSE lockedVal[i]]
         /\ lockedRound' = [i \in Corr |-> IF g[i] = "lock" THEN gr ELSE IF g[i] = "nilpolka" THEN -1 ELSE lockedRound[i]]
         /\ walVal' = [i \in Corr |-> IF g[i] = "lock" /\ (FixWal \/ lockedVal[i] # polka[gr]) THEN polka[gr] ELSE walVal[i]]
@@ -64,16 +65,21 @@ PrecommitPhase ==
         /\ pcq' = [pcq EXCEPT ![gr] = IF Q(Cardinality({i \in Corr : g[i] = "lock"})) THEN polka[gr] ELSE None]
   /\ phase' = "between"
   /\ UNCHANGED <<gr, decision, polka, prop, crashes>>
-Unlock(i) ==
+PrecommitPhase == \E g \in [Corr -> {"abstain","timeout","lock","nilpolka"}] : PrecommitPhaseG(g)
+\* validator i learns of the polka of round r (late or reordered prevotes) and releases its older lock
+UnlockR(i, r) ==
   /\ phase = "between" /\ decision[i] = None /\ lockedVal[i] # None
-  /\ \E r \in Rounds : r > lockedRound[i] /\ polka[r] # None /\ polka[r] # lockedVal[i]
+  /\ r > lockedRound[i] /\ polka[r] # None /\ polka[r] # lockedVal[i]
   /\ lockedVal' = [lockedVal EXCEPT ![i] = None]
   /\ lockedRound' = [lockedRound EXCEPT ![i] = -1]
   /\ UNCHANGED <<gr, phase, walVal, walRound, decision, polka, pcq, prop, crashes>>
-Commit(i) ==
+Unlock(i) == \E r \in Rounds : UnlockR(i, r)
+\* validator i learns of the precommit quorum of round r and decides
+CommitR(i, r) ==
   /\ phase = "between" /\ decision[i] = None
-  /\ \E r \in Rounds : pcq[r] # None /\ decision' = [decision EXCEPT ![i] = pcq[r]]
+  /\ pcq[r] # None /\ decision' = [decision EXCEPT ![i] = pcq[r]]
   /\ UNCHANGED <<gr, phase, lockedVal, lockedRound, walVal, walRound, polka, pcq, prop, crashes>>
+Commit(i) == \E r \in Rounds : CommitR(i, r)
 CrashRestart(i) ==
   /\ phase = "between" /\ decision[i] = None /\ crashes < MaxCrash
   /\ crashes' = crashes + 1
